@@ -1,0 +1,86 @@
+//go:build verif
+
+package domainmatcher
+
+// Contracts for the deductive checker in /verif (comment-only file, no declarations).
+//
+// Node view: a label is Absent, Terminal (present with a nil child) or an inner Node.
+// Labels shorter than 24 bytes live in n.s under a [24]byte key (bytes, zero padding, length in
+// the last byte), longer ones in n.l.
+
+//@ spec func terminalS(n *labelNode, label []byte) bool = has(n.s, padArray(label, 24, 23)) && n.s[padArray(label, 24, 23)] == nil
+//@ spec func terminalL(n *labelNode, label []byte) bool = has(n.l, label) && n.l[label] == nil
+
+//@ func (n *labelNode) GetChild(label []byte) (child *labelNode, ok bool)
+//@   props C11
+//@   requires n != nil
+//@   modifies nothing
+//@   ensures [C11:short] len(label) < 24 ==> ok == has(n.s, padArray(label, 24, 23)) && child == n.s[padArray(label, 24, 23)]
+//@   ensures [C11:long] len(label) >= 24 ==> ok == has(n.l, label) && child == n.l[label]
+
+//@ func (n *labelNode) AddLeaf(label []byte)
+//@   props C11
+//@   requires n != nil
+//@   modifies n.s, n.l, obj(n.s), obj(n.l)
+//@   ensures [C11:leaf-short] len(label) < 24 ==> terminalS(n, label)
+//@   ensures [C11:leaf-long] len(label) >= 24 ==> terminalL(n, label)
+//@   ensures [C11:others-short] forallkey(k, n.s, (len(label) >= 24 || k != keyOf(n.s, padArray(label, 24, 23))) ==>
+//@             (has(n.s, k) == old(has(n.s, k)) && n.s[k] == old(n.s[k])))
+//@   ensures [C11:others-long] forallkey(k, n.l, (len(label) < 24 || k != keyOf(n.l, label)) ==>
+//@             (has(n.l, k) == old(has(n.l, k)) && n.l[k] == old(n.l[k])))
+
+//@ func (n *labelNode) GetOrAddChild(label []byte) (child *labelNode)
+//@   props C11
+//@   requires n != nil
+//@   requires [C11:not-a-leaf] len(label) < 24 ? !terminalS(n, label) : !terminalL(n, label)
+//@   modifies n.s, n.l, obj(n.s), obj(n.l)
+//@   ensures child != nil
+//@   ensures [C11:terminal-stays-short] len(label) < 24 && old(terminalS(n, label)) ==> terminalS(n, label)
+//@   ensures [C11:terminal-stays-long] len(label) >= 24 && old(terminalL(n, label)) ==> terminalL(n, label)
+//@   ensures [C11:existing-short] len(label) < 24 && old(n.s[padArray(label, 24, 23)]) != nil ==> child == old(n.s[padArray(label, 24, 23)])
+//@   ensures [C11:others-short] forallkey(k, n.s, (len(label) >= 24 || k != keyOf(n.s, padArray(label, 24, 23))) ==>
+//@             (has(n.s, k) == old(has(n.s, k)) && n.s[k] == old(n.s[k])))
+//@   ensures [C11:others-long] forallkey(k, n.l, (len(label) < 24 || k != keyOf(n.l, label)) ==>
+//@             (has(n.l, k) == old(has(n.l, k)) && n.l[k] == old(n.l[k])))
+
+// Two different labels must never share a key (a label is 1..63 arbitrary octets).
+//@ lemma shortKeyInjective(a []byte, b []byte)
+//@   props C11
+//@   requires 1 <= len(a) && len(a) < 24 && 1 <= len(b) && len(b) < 24
+//@   requires padArray(a, 24, 23) == padArray(b, 24, 23)
+//@   ensures [C11:key-injective] len(a) == len(b) && bytesEq(a, 0, b, 0, len(a))
+
+//@ func (m *DomainMatcher) Add(labels [][]byte)
+//@   props C11
+//@   requires m != nil
+//@   modifies *
+//@   loop 1:
+//@     invariant currentNode != nil && -1 <= i && i < len(labels)
+//@     decreases i + 1
+
+//@ func (m *DomainMatcher) Match(n []byte) (ok bool)
+//@   props C11 C01
+//@   requires m != nil
+//@   modifies nothing
+//@   ensures [C11:root] m.rootMatched ==> ok
+//@   loop 1:
+//@     modifies scanner.label, scanner.labelOff, scanner.off, scanner.err, obj(labels)
+//@     invariant sameSlice(scanner.n, n, 0, len(n)) && 0 <= scanner.off && scanner.off <= len(n)
+//@     invariant sameObj(labels, loopOld(labels)) || loopFresh(labels)
+//@     decreases len(n) - scanner.off
+//@   loop 2:
+//@     invariant currentNode != nil && -1 <= i && i < len(labels)
+//@     decreases i + 1
+
+//@ func (m *FullMatcher) Match(n []byte) (ok bool)
+//@   props C11
+//@   requires m != nil
+//@   modifies nothing
+//@   ensures [C11:full] ok == has(m.m, n)
+
+//@ func (m *FullMatcher) Add(n []byte)
+//@   props C11
+//@   requires m != nil && m.m != nil
+//@   modifies obj(m.m)
+//@   ensures [C11:full-added] has(m.m, n)
+//@   ensures [C11:full-others] forallkey(k, m.m, has(m.m, k) == (old(has(m.m, k)) || k == keyOf(m.m, n)))
